@@ -158,5 +158,10 @@ ss = sum(stk * col)
 check("A28 ravel/reshape round trip, dot over the flattened stack (strict), per-layer broadcast and sum(stack) agree with the layer-by-layer sum",
       np.array_equal(g1.ravel().reshape(g1.shape).data, g1.data) and np.allclose(dd.filled(-1), ref.filled(-1)) and dd.mask.tolist() == ref.mask.tolist()
       and np.allclose(ss.filled(-1), ref.filled(-1)) and ss.mask.tolist() == ref.mask.tolist() and not ma.dot(w2, flat, strict=False).reshape(g1.shape).mask.any())
+av = ma.array([[1.0, 2.0], [3.0, 4.0]], mask=[[False, True], [False, False]])
+av0 = ma.average(av, axis=0, weights=[0, 0])
+av1 = ma.average(av, axis=0, weights=[1, 3])
+check("A29 numpy.ma.average(stack, axis=0, weights=w): weighted layer mean over the cells present (weights renormalised), masked where the weight sum is 0",
+      av0.mask.tolist() == [True, True] and av1.mask.tolist() == [False, False] and np.allclose(av1.data, [2.5, 4.0]))
 print("%d axiom check(s) failed" % len(FAIL))
 sys.exit(1 if FAIL else 0)
